@@ -51,7 +51,7 @@ Ev(name, d, a, x, c, s) == [e |-> name, vm |-> 1, d |-> d, r |-> r, b |-> 0, q |
 With(e, rr, qq, tt) == [e EXCEPT !.r = rr, !.q = qq, !.t = tt]
 
 RECURSIVE FoldEv(_, _, _)
-FoldEv(s, evs, i) == IF i > Len(evs) THEN s ELSE FoldEv(Apply(s, evs[i]), evs, i + 1)
+FoldEv(s, evs, i) == IF i > Len(evs) \/ ~s.ok THEN s ELSE FoldEv(Apply(s, evs[i]), evs, i + 1)
 Feed(evs) == IF Live THEN mon' = mon /\ n' = n ELSE mon' = FoldEv(mon, evs, 1) /\ n' = n + Len(evs)
 
 Idle == frames = <<>>
@@ -129,7 +129,7 @@ Builder == /\ MayRun
            /\ UNCHANGED <<frames, r, ip, tries, time, errs>>
 
 (* work that changes nothing the monitor sees (a loop spinning): temp registers come and go *)
-Spin == /\ MayRun /\ Depth > 0
+Spin == /\ MayRun /\ Depth > 0 /\ Live
         /\ r' = (IF r = TopF.r + 4 THEN TopF.r + 3 ELSE TopF.r + 4)
         /\ Feed(<<>>) /\ UNCHANGED <<frames, q, t, ip, tries, time, errs>>
 
